@@ -433,3 +433,43 @@ def dsp_expr(items, keys, sched, out, finished):
     return "dsp_check %s %s (-1) %s %s %s" % (
         glist("(%s, %s)" % (gz(v), gz(k)) for v, k in keys.items()), gzlist(items),
         g_choices(sched), gzlist(out), "true" if finished else "false")
+
+
+def merge_cancelled_input_case(rng):
+    """An input of merge_generators dies with asyncio.CancelledError raised inside its own body (it awaited something that
+    someone else cancelled) while the consumer of the merged stream is NOT being cancelled.  That is the input's error like
+    any other: it reaches the consumer; the merged stream must not end normally with that input silently dropped.
+    Returns (failure text or None, facts)."""
+    n = rng.randint(1, 3)
+    victim = rng.randrange(n)
+    lens = [rng.randint(0, 3) for _ in range(n)]
+    die_after = rng.randint(0, lens[victim])
+    got, state = [], dict(raised=None, finished=False)
+
+    async def source(i):
+        for k in range(lens[i]):
+            if i == victim and k == die_after:
+                raise asyncio.CancelledError()
+            await asyncio.sleep(0)
+            yield (i, k)
+        if i == victim and die_after == lens[i]:
+            raise asyncio.CancelledError()
+
+    async def main():
+        agen = IU.merge_generators(*[source(i) for i in range(n)])
+        try:
+            async for v in agen:
+                got.append(v)
+            state["finished"] = True
+        except asyncio.CancelledError as e:
+            state["raised"] = e
+        except Exception as e:  # noqa: BLE001
+            state["raised"] = e
+
+    vloop.run(main())
+    facts = dict(inputs=n, lengths=lens, victim=victim, dies_after=die_after, delivered=len(got),
+                 outcome="ended normally" if state["finished"] else "raised %r" % (state["raised"],))
+    if state["finished"]:
+        return ("input %d of %d raised CancelledError from its own body after %d items, but the merged stream ended normally "
+                "after %d items: the input's failure was swallowed and its remaining items dropped" % (victim, n, die_after, len(got))), facts
+    return None, facts
